@@ -113,6 +113,11 @@ func (C09) Gen(rng *core.Rng, tier string, idx int) *core.Scenario {
 			reps = append(reps, as.RepIDs...)
 		}
 	}
+	for _, as := range a.ASets[ar.MPD] { // thumbnails: far fewer operations, checked against normal delivery only
+		if as.ContentType == "image" && len(reps) > 0 && rng.Chance(0.5) {
+			reps = append(reps, as.RepIDs[0])
+		}
+	}
 	if len(reps) == 0 {
 		panic("harness: no video/audio representation in " + ar.Asset + "/" + ar.MPD)
 	}
@@ -725,10 +730,44 @@ func (c *c09Ctx) keysFor(prefix string, rep *refmodel.Rep, nowMS int64) (*c09Key
 	return &c09Keys{di: &di, key: key}, f.Init.Moov.Mvex.Trex, ""
 }
 
+// runImageOp: a thumbnail is not media that can be chunked; in low-latency mode it must be answered exactly as in
+// normal mode at an instant at which it is available in both.
+func (c *c09Ctx) runImageOp(i int, op c09Op, rep *refmodel.Rep) {
+	res := c.res
+	cfgC := op.urlCfg(true, false)
+	cfgW := op.urlCfg(false, false)
+	astMS := op.StartS * 1000
+	tg, ok := modelTarget(c.a, cfgW, rep.ID, op.N)
+	if !ok {
+		return
+	}
+	at := astMS + (op.N+2)*c.a.SegDurMS + 10
+	rw := c.srv.GetAt(cfgW.Prefix(c.w.Asset)+"/"+tg.URL, at)
+	rc := c.srv.GetAt(cfgC.Prefix(c.w.Asset)+"/"+tg.URL, at)
+	res.Count("op.thumbnail-request")
+	res.Event("op%d thumb %s -> whole %d chunked-mode %d", i, tg.URL, rw.Status, rc.Status)
+	if rw.Status != 200 {
+		res.Count("probe.thumbnail-not-available")
+		return
+	}
+	sig := core.Sig("content", "image", "kind", "thumbnail-differs-in-low-latency-mode", "status", fmt.Sprint(rc.Status))
+	if rc.Panic != "" {
+		res.Violate("C09.served", merge(sig, core.Sig("kind", "panic", "frame", rc.PanicFrame)), "%s: panic %s", tg.URL, rc.Panic)
+		return
+	}
+	if rc.Status != 200 || !bytes.Equal(rc.Body, rw.Body) {
+		res.Violate("C09.same-media", sig, "%s at %d: low-latency mode answers %d (%d bytes), normal mode 200 (%d bytes)", tg.URL, at, rc.Status, len(rc.Body), len(rw.Body))
+	}
+}
+
 func (c *c09Ctx) runOp(i int, op c09Op) {
 	res, a := c.res, c.a
 	rep := a.Reps[op.Rep]
 	ref := a.Ref()
+	if rep != nil && ref != nil && rep.ContentType == "image" {
+		c.runImageOp(i, op, rep)
+		return
+	}
 	if rep == nil || ref == nil || (rep.ContentType != "video" && rep.ContentType != "audio") {
 		return
 	}
